@@ -11,6 +11,7 @@ import (
 	"github.com/ryogrid/SamehadaDB/lib/common"
 	"github.com/ryogrid/SamehadaDB/lib/concurrency"
 	"github.com/ryogrid/SamehadaDB/lib/execution/executors"
+	"github.com/ryogrid/SamehadaDB/lib/execution/expression"
 	"github.com/ryogrid/SamehadaDB/lib/execution/plans"
 	"github.com/ryogrid/SamehadaDB/lib/parser"
 	"github.com/ryogrid/SamehadaDB/lib/planner"
@@ -387,4 +388,66 @@ func (t *Txn) PlanStmt(s *Stmt) (plans.Plan, []string, error) {
 		return nil, nil, err
 	}
 	return p, PlanShape(p), nil
+}
+
+// ExecJoin runs a join query in the transaction (plan-level substitution when needed).
+func (t *Txn) ExecJoin(q *JoinQuery) ([]Row, error) {
+	if q.NeedsPlan() {
+		return t.ExecSQL(q.SQL(true), q.Values())
+	}
+	return t.ExecSQL(q.SQL(false), nil)
+}
+
+// PlanJoin plans a join query and reports the plan's node types.
+func (t *Txn) PlanJoin(q *JoinQuery) (plans.Plan, []string, error) {
+	var p plans.Plan
+	var err error
+	if q.NeedsPlan() {
+		p, _, err = t.Plan(q.SQL(true), q.Values())
+	} else {
+		p, _, err = t.Plan(q.SQL(false), nil)
+	}
+	if err != nil || p == nil {
+		return nil, nil, err
+	}
+	return p, PlanShape(p), nil
+}
+
+// ---- explicit access paths (any index kind) ---------------------------------------------------------------
+
+func (d *DB) rowsOf(t *Txn, plan plans.Plan) ([]Row, error) {
+	rows, err := t.RunPlan(plan)
+	if !t.Done {
+		t.Commit()
+	}
+	return rows, err
+}
+
+// PointScan reads table rows whose column col equals key through an explicit PointScanWithIndexPlanNode.
+func (d *DB) PointScan(table string, col int, key Val) ([]Row, error) {
+	tm := d.Cat().GetTableByName(table)
+	if tm == nil {
+		return nil, fmt.Errorf("table %s not found", table)
+	}
+	cmp := expression.NewComparison(expression.NewColumnValue(0, uint32(col), key.TypeID()),
+		expression.NewConstantValue(key.ToValue(), key.TypeID()), expression.Equal, types.Boolean).(*expression.Comparison)
+	return d.rowsOf(d.Begin(), plans.NewPointScanWithIndexPlanNode(d.Cat(), tm.Schema(), cmp, tm.OID()))
+}
+
+// RangeScan reads rows with lo <= column <= hi through an explicit RangeScanWithIndexPlanNode; nil = open end.
+func (d *DB) RangeScan(table string, col int, lo, hi *Val) ([]Row, error) {
+	tm := d.Cat().GetTableByName(table)
+	if tm == nil {
+		return nil, fmt.Errorf("table %s not found", table)
+	}
+	var s, e *types.Value
+	if lo != nil {
+		v := lo.ToValue()
+		s = &v
+	}
+	if hi != nil {
+		v := hi.ToValue()
+		e = &v
+	}
+	return d.rowsOf(d.Begin(), plans.NewRangeScanWithIndexPlanNode(d.Cat(), tm.Schema(), tm.OID(), int32(col), nil, s, e))
 }
